@@ -476,7 +476,7 @@ func (s *syncer) newOutput() (*RedisOutput, error) {
 			s.logger.Errorf("%s", err.Error())
 			return nil, errors.Join(ErrQuit, err)
 		}
-		err = s.updateCheckpoint(wait, localCheckpoint, []string{id1, id2})
+		outputCfg.RunId, err = s.updateCheckpoint(wait, localCheckpoint, []string{id1, id2})
 		if err != nil {
 			return nil, errors.Join(ErrRestart, err)
 		}
@@ -884,20 +884,40 @@ func deleteBisyncKeysInChunks(cli client.Redis, keys []string, chunkSize int) er
 	return errors.Join(errs...)
 }
 
-func (s *syncer) updateCheckpoint(wait usync.WaitCloser, localCheckpoint string, ids []string) error {
-	return util.RetryLinearJitter(wait.Context(), func() error {
+// updateCheckpoint moves the checkpoint to localCheckpoint and returns the run id the
+// resume position is stored under.
+// A position stored under the source's previous run id keeps that label : only the source
+// can tell, by granting PSYNC for it, that it also belongs to the current history (an
+// offset beyond the failover point does not). Relabelling it with the current run id here
+// would turn the PSYNC the source refuses into one it grants. The position is relabelled
+// by RedisOutput.SetRunId once the source has answered CONTINUE.
+func (s *syncer) updateCheckpoint(wait usync.WaitCloser, localCheckpoint string, ids []string) (string, error) {
+	label := ids[0]
+	err := util.RetryLinearJitter(wait.Context(), func() error {
 		cli, err := client.NewRedis(s.cfg.Output)
 		if err != nil {
 			return err
 		}
 		defer cli.Close()
 
-		err = checkpoint.UpdateCheckpoint(cli, localCheckpoint, ids)
+		ordered := ids
+		_, cpRunId, err := checkpoint.GetCheckpointHash(cli, ids)
+		if err != nil && err != rediscommon.ErrNil {
+			s.logger.Errorf("get checkpoint hash : redis(%s), ids(%v), error(%v)", s.cfg.Output.Address(), ids, err)
+			return err
+		}
+		if len(ids) > 1 && cpRunId == ids[1] && ids[1] != ids[0] {
+			ordered = []string{ids[1], ids[0]}
+		}
+		label = ordered[0]
+
+		err = checkpoint.UpdateCheckpoint(cli, localCheckpoint, ordered)
 		if err != nil {
-			s.logger.Errorf("update checkpoint : redis(%s), local(%s), ids(%v), error(%v)", s.cfg.Output.Address(), localCheckpoint, ids, err)
+			s.logger.Errorf("update checkpoint : redis(%s), local(%s), ids(%v), error(%v)", s.cfg.Output.Address(), localCheckpoint, ordered, err)
 		}
 		return err
 	}, 5, time.Second*1, 0.3)
+	return label, err
 }
 
 func choseKeyInSlots(prefix string, slots *config.RedisSlots) string {
